@@ -33,6 +33,15 @@ func verifDir() string {
 	return "/verif"
 }
 
+// outDir is where evidence and replay files go ($VERIF_OUT for experiments on mutated copies,
+// so that the committed evidence of the unchanged tree is not overwritten).
+func outDir() string {
+	if d := os.Getenv("VERIF_OUT"); d != "" {
+		return d
+	}
+	return verifDir()
+}
+
 func repoDir() string {
 	if d := os.Getenv("VERIF_REPO"); d != "" {
 		return d
